@@ -66,6 +66,21 @@ def l2_monitor(spec, rec, obs):
         if [t for t, _ in r["got"]] != r["expected"]:
             out.append("collect_events returned %s for expected %s" % (r["got"], r["expected"]))
     sent = [r["i"] for r in rec.log if r["kind"] == "send" and r["ev"] == "T2"]
+    if spec.get("collect_then_fail"):
+        # a failed attempt keeps the buffer: the retry of the invocation that got the full set gets the same set again
+        out2, seq = [], {}
+        for r in rec.log:
+            if r["kind"] == "collect":
+                seq.setdefault(r["i"], []).append(None if r["got"] is None else sorted(i for _, i in r["got"]))
+        for i, ls in seq.items():
+            full = next((l for l in ls if l is not None), None)
+            if full is None:
+                continue
+            after = ls[ls.index(full) + 1:]
+            if any(l != full for l in after):
+                out2.append("retry of the collecting invocation (event %s) got %s from collect_events after a failed attempt "
+                            "had received the full set %s (buffered events lost)" % (i, after, full))
+        return out2, dict(returned_lists=len(lists), collect_then_fail_runs=1)
     dup = [i for i, c in used.items() if c > 1]
     if dup:
         out.append("%s: events %s appear in more than one returned list (%s)"
@@ -130,8 +145,8 @@ def run(ctx):
     for k in ("returned", "buffered", "dropped"):
         ctx.require_coverage("collect", k, kinds[k], 20)
     run_l1(ctx, ctx.n(100, 4000), l1_monitor, THEOREMS, need=("collect_rerun",))
-    fails2, facts = run_l2(ctx, [S.collect2, S.fanout], ctx.n(120, 4000), l2_monitor,
-                           need=(("returned_lists", 50), ("reruns_on_stale_snapshot", 10), ("runs_multi_worker", 20)))
+    fails2, facts = run_l2(ctx, [S.collect2, S.fanout, S.collectfail], ctx.n(135, 4000), l2_monitor,
+                           need=(("returned_lists", 50), ("reruns_on_stale_snapshot", 10), ("runs_multi_worker", 20), ("collect_then_fail_runs", 10)))
     known = [f for f in fails2 if f["why"].startswith(K_DOUBLE)]
     other = [f for f in fails2 if not f["why"].startswith(K_DOUBLE)]
     if known:
